@@ -12,12 +12,12 @@ LEAN_FILE = 'PncProofs/C10.lean'
 NAMESPACE = 'Props.C10'
 LEAN_CONE = ['PncModel.Cal', 'PncModel.TimeDec', 'PncModel.Arr', 'PncModel.Ioapi', 'PncProofs.IoapiLemmas', 'PncProofs.C10']
 LEMMA_FILES = ['PncProofs/IoapiLemmas.lean']
-REQUIRED_THEOREMS = ['coherent_updatemeta', 'coherent_step', 'coherent_run', 'zero_listed_counterexample']
+REQUIRED_THEOREMS = ['coherent_updatemeta', 'coherent_restack', 'coherent_step', 'coherent_run', 'zero_listed_counterexample']
 RULE = ('IOAPI files from five sources (variable names of 2 to 16 characters; from_arrays gridded/boundary, from_arrays plus an unlisted 2-D variable, '
         'saved to disk and reopened with the ioapi reader, GRIDDESC text gridded/boundary) x sequences of 1-4 '
         'operations (copy, sliceDimensions with int / unit and strided slice / index-list windows on 1-2 dimensions, subsetVariables, renameVariable, '
         'applyAlongDimensions with reducers and length-changing callables, eval incl. 17-character and existing '
-        'names and inplace, mask, stack along TSTEP/LAY with a file or a list of files, interpSigma linear/conserve); after EVERY step the '
+        'names and inplace, mask, stack along TSTEP/LAY with a file or a list of files, a later part of the file stacked in front of an earlier part (the result starts where the receiver starts), interpSigma linear/conserve); after EVERY step the '
         'complete metadata state (NVARS, VAR-LIST, VAR, TFLAG width and rows, variables and their dimensions, '
         'NROWS/NCOLS/NLAYS, VGLVLS, SDATE/STIME/TSTEP, XORIG/YORIG/XCELL/YCELL, dimension lengths) is compared '
         'with the Lean model and the ten equalities of the property are evaluated on the real file (oracle); '
@@ -53,7 +53,7 @@ def _src(rng):
 
 def _recipe(rng):
     k = rng.choice(['copy', 'slice', 'slice', 'slice2', 'subset', 'rename', 'apply', 'apply', 'eval', 'mask', 'stack',
-                    'interp', 'slicerc', 'slicet'])
+                    'interp', 'slicerc', 'slicet', 'restack'])
     return [k] + [rng.randrange(1 << 20) for _ in range(6)]
 
 
@@ -206,7 +206,10 @@ def resolve(recipe, f):
             if second:       # index lists on two dimensions select points, not a window: at most one list
                 return ['i', a % (2 * L) - L] if a % 3 else ['s', None, None]
             n = 1 + a % L
-            return ['l', sorted({(a + 3 * j) % L for j in range(n)})] if m == 9 else ['l', [(a + j) % L - L for j in range(n)]]
+            if m == 9:
+                return ['l', sorted({(a + 3 * j) % L for j in range(n)})]
+            wrap = [(a + j) % L - L for j in range(n)]
+            return ['l', sorted(wrap) if d == 'TSTEP' else wrap]       # a time axis running backwards is outside the domain
         if m < 3:
             return ['i', a % (2 * L) - L]
         lo = a % L
@@ -274,6 +277,12 @@ def resolve(recipe, f):
         return ['mask', recipe[1] % 3 == 0, recipe[2] % 3]      # coords=True and other conditions in a third of the cases
     if k == 'stack':
         return ['stack', ['TSTEP', 'LAY'][r[0] % 2], r[1] % 3 == 0]
+    if k == 'restack':
+        # files stacked against the order of time: the later part of the file first
+        L = dims.get('TSTEP', 0)
+        if L < 2:
+            return ['copy']
+        return ['restack', 1 + r[0] % (L - 1), r[1] % 3 == 0]
     n = 1 + r[0] % 4
     lv = sorted(set([64, 0] + [r[1 + i] % 64 for i in range(n - 1)]), reverse=True)
     return ['interp', ['%d/64' % x for x in lv], ['linear', 'conserve'][r[5] % 2]]
@@ -306,6 +315,9 @@ def apply_op(f, op):
         return f.mask(greater=5)
     if k == 'stack':
         return f.stack([f.copy()] if len(op) > 2 and op[2] else f.copy(), op[1])
+    if k == 'restack':
+        later, earlier = f.sliceDimensions(TSTEP=slice(op[1], None)), f.sliceDimensions(TSTEP=slice(None, op[1]))
+        return later.stack([earlier] if len(op) > 2 and op[2] else earlier, 'TSTEP')
     if k == 'interp':
         return f.interpSigma(np.array([float(Fraction(x)) for x in op[1]]), interptype=op[2])
     raise ValueError(k)
@@ -362,6 +374,8 @@ def tok(op):
         return 'eval@%s@%s@%d' % (op[1], op[2], 1 if op[3] else 0)
     if k == 'stack':
         return 'stack@' + op[1]
+    if k == 'restack':
+        return 'restack@%d' % op[1]
     if k == 'interp':
         return 'interp@' + ','.join(op[1])
     return k
